@@ -57,13 +57,14 @@ ENGINES = {
     "schedsim": dict(
         sources=["kernel/simheap.cpp", "kernel/engine.cpp", "wrap/wrap.cpp", "schedsim/main.cpp",
                  "schedsim/gen.cpp", "schedsim/sched.cpp", "schedsim/ts.cpp", "schedsim/temp.cpp"],
+        first=["schedsim/static_user.cpp"],  # linked before the library's translation units
         wraps=WRAPS, libs=[]),
     "compsim": dict(
         sources=["kernel/simheap.cpp", "kernel/engine.cpp", "wrap/wrap.cpp", "compsim/main.cpp",
                  "compsim/gen.cpp", "compsim/comps_a.cpp", "compsim/comps_b.cpp", "compsim/wrap.cpp",
                  "compsim/smart.cpp", "compsim/joint.cpp", "compsim/cont.cpp", "compsim/cont_0.cpp",
                  "compsim/cont_1.cpp", "compsim/cont_2.cpp", "compsim/cont_3.cpp", "compsim/cont_4.cpp",
-                 "compsim/cont_5.cpp"],
+                 "compsim/cont_5.cpp", "compsim/cont_6.cpp"],
         wraps=WRAPS, libs=[], nodesizes=True),
 }
 
@@ -244,8 +245,9 @@ def build(engine, cfg, san="asan", quiet=False, extra_defs=()):
     cfg_text = open(os.path.join(cdir, "config_impl.hpp")).read()
     jobs = []
     objs = []
-    srcs = [os.path.join(REPO, "src", s) for s in LIB_SOURCES] + [os.path.join(VERIF, "sim", s)
-                                                                   for s in spec["sources"]]
+    srcs = ([os.path.join(VERIF, "sim", s) for s in spec.get("first", [])]
+            + [os.path.join(REPO, "src", s) for s in LIB_SOURCES]
+            + [os.path.join(VERIF, "sim", s) for s in spec["sources"]])
     for s in srcs:
         with open(s, "rb") as fh:
             content = fh.read()
